@@ -64,6 +64,8 @@ pub broadcast proof fn lemma_max_is_earliest(m: Multiset<TimeoutData>, x: Timeou
 // can establish them only by making the call.
 #[verifier::opaque] pub closed spec fn w_wheel_inserted(counter: int, deadline: Instant, token: Token) -> bool { true }
 #[verifier::opaque] pub closed spec fn w_wheel_cancelled(counter: int) -> bool { true }
+/// insert_reuse(counter, deadline, token) has been called: a rescheduled timer IS back in the heap under its old counter
+#[verifier::opaque] pub closed spec fn w_wheel_reinserted(counter: int, deadline: Instant, token: Token) -> bool { true }
 //@ endregion
 //@ open src/sources/timer.rs / impl TimerWheel
 //@ item src/sources/timer.rs / impl TimerWheel / fn new props=C05 ret=r
@@ -107,8 +109,10 @@ pub broadcast proof fn lemma_max_is_earliest(m: Multiset<TimeoutData>, x: Timeou
         ensures
             final(self).next_counter() == old(self).next_counter(),
             exists|x: TimeoutData| #[trigger] x.is_entry(deadline, token, counter as int) && final(self)@ == old(self)@.insert(x),
+            w_wheel_reinserted(counter as int, deadline, token),
 //@ exit
         proof {
+            reveal(w_wheel_reinserted);
             let x = TimeoutData { deadline: deadline, token: token, counter: counter };
             assert(x.is_entry(deadline, token, counter as int));
             assert(self@ == old(self)@.insert(x));
